@@ -16,13 +16,17 @@ pub struct AccessStructure {
     version: Version,
     // Use a hash-map to efficiently find dimensions by name.
     dimensions: HashMap<String, Dimension>,
+    // ID given to the next attribute. IDs are never reused, otherwise a new
+    // attribute would inherit the rights of a deleted one.
+    next_attribute_id: usize,
 }
 
 impl AccessStructure {
     pub fn new() -> Self {
         Self {
-            version: Version::V1,
+            version: Version::V2,
             dimensions: HashMap::new(),
+            next_attribute_id: 0,
         }
     }
 
@@ -107,16 +111,14 @@ impl AccessStructure {
         encryption_hint: EncryptionHint,
         after: Option<&str>,
     ) -> Result<(), Error> {
-        let cnt = self
-            .dimensions
-            .values()
-            .map(Dimension::nb_attributes)
-            .sum::<usize>();
+        let id = self.next_attribute_id;
 
         self.dimensions
             .get_mut(&attribute.dimension)
             .ok_or_else(|| Error::DimensionNotFound(attribute.dimension.clone()))?
-            .add_attribute(attribute.name, encryption_hint, after, cnt)?;
+            .add_attribute(attribute.name, encryption_hint, after, id)?;
+
+        self.next_attribute_id += 1;
 
         Ok(())
     }
@@ -346,10 +348,7 @@ fn combine(
 
 impl Default for AccessStructure {
     fn default() -> Self {
-        Self {
-            version: Version::V1,
-            dimensions: HashMap::new(),
-        }
+        Self::new()
     }
 }
 
@@ -373,22 +372,24 @@ mod serialization {
                         to_leb128_len(l) + l + dimension.length()
                     })
                     .sum::<usize>()
+                + to_leb128_len(self.next_attribute_id)
         }
 
         fn write(&self, ser: &mut Serializer) -> Result<usize, Self::Error> {
-            let mut n = ser.write_leb128_u64(self.version as u64)?;
+            let mut n = ser.write_leb128_u64(Version::V2 as u64)?;
             n += ser.write_leb128_u64(self.dimensions.len() as u64)?;
             self.dimensions.iter().try_for_each(|(name, dimension)| {
                 n += ser.write_vec(name.as_bytes())?;
                 n += ser.write(dimension)?;
                 Ok::<_, Self::Error>(())
             })?;
+            n += ser.write_leb128_u64(self.next_attribute_id as u64)?;
             Ok(n)
         }
 
         fn read(de: &mut Deserializer) -> Result<Self, Self::Error> {
             let version = de.read_leb128_u64()?;
-            let dimensions = if version == Version::V1 as u64 {
+            let dimensions = if version == Version::V1 as u64 || version == Version::V2 as u64 {
                 (0..de.read_leb128_u64()?)
                     .map(|_| {
                         let name = String::from_utf8(de.read_vec()?)
@@ -402,9 +403,22 @@ mod serialization {
                     "unable to deserialize versions prior to V3".to_string(),
                 ))
             }?;
+            let next_attribute_id = if version == Version::V2 as u64 {
+                de.read_leb128_u64()?.try_into()?
+            } else {
+                // V1 structures do not store the counter: IDs in use are
+                // lower than it.
+                dimensions
+                    .values()
+                    .flat_map(Dimension::attributes)
+                    .map(|a| a.get_id().saturating_add(1))
+                    .max()
+                    .unwrap_or_default()
+            };
             Ok(Self {
-                version: Version::V1,
+                version: Version::V2,
                 dimensions,
+                next_attribute_id,
             })
         }
     }
